@@ -14,7 +14,7 @@ RULE = ("random graphs with 1..10 vertices (edgeless, isolated vertices, paths, 
         "every call; non-trivial = some call with at least one edge kept and one removed; distinct by full case")
 EXHAUSTIVE = {"quick": False, "thorough": False}
 EXPLANATION = ("general theorems in Props/C18.v (components = path-connectivity, value = k/N with 1<=k<=N, phi=1, phi=0, "
-               "star count, per-edge retention depends on its own draw only); correspondence with scripted draws; "
+               "star count, per-edge retention depends on its own draw only, monotone coupling in phi); correspondence with scripted draws; "
                "c18_check judges the returned float against largest-component/N of the kept subgraph")
 ASSUMPTIONS = ["random.random() draws are independent and uniform on [0,1) (CPython Mersenne twister) — needed only to "
                "read 'kept iff own draw <= phi' as 'kept independently with probability phi'",
@@ -25,7 +25,10 @@ LEVEL_TEXT = (
     "General theorems (coq/Props/C18.v) over every graph, every phi and every sequence of draws: the component function "
     "computes path-connectivity classes; the result is k/N with 1<=k<=N; at phi=1 it is the exact largest-component "
     "fraction of the input, at phi=0 exactly 1/N (for draws > 0), on a star N*S-1 equals the number of draws <= phi "
-    "(hence Binomial(M,phi) under independent uniform draws), and each edge is kept iff its own draw <= phi. Tied to "
+    "(hence Binomial(M,phi) under independent uniform draws), and each edge is kept iff its own draw <= phi; monotone "
+    "coupling (C18_monotone_coupling, C18_more_edges_larger_components): for phi <= phi' and the same draws the kept "
+    "edges at phi are among those at phi', so no component and not the returned numerator can shrink (the direction of "
+    "the comparison, for every graph and draw sequence; strict on the example C18_monotone_nonvacuous). Tied to "
     "gcmpy/tools/bond_percolate.py by running the real function under a scripted random.random and comparing the float "
     "with the model's exact k/N; the input graph is compared before/after.")
 LEVEL_NOTE = ("Trusted: Coq kernel; extraction + driver + harness; independence/uniformity of random.random(); networkx "
